@@ -257,8 +257,16 @@ def runInvoke (inp out : Json) : Json :=
       | none => [])
   Json.mkObj [("same", Json.bool same),
               ("diff", Json.str (if same then "" else s!"model {showInvoked model} real {match real with | some r => showInvoked r | none => "PANIC " ++ jstr (jget out "panic")}")),
-              ("aspects", Json.mkObj [("C11", Json.bool (same || !hasMultiParts e)),
-                                      ("C12", Json.bool (same || (match e with | .multiParts .. => true | _ => false)))]),
+              -- the disagreement is about Batch itself (C09) when every member on its own agrees with the model
+              ("aspects",
+                let batchOnly : Bool := match e with
+                  | .batch es =>
+                    let ms := (jarr out "members").toList.map parseResult
+                    ms.length == es.length && (es.zip ms).all (fun (ei, mi) => sameInvoked (invoke ei c) mi)
+                  | _ => false
+                Json.mkObj [("C09", Json.bool (same || !batchOnly)),
+                            ("C11", Json.bool (same || !hasMultiParts e || batchOnly)),
+                            ("C12", Json.bool (same || batchOnly || (match e with | .multiParts .. => true | _ => false)))]),
               ("fails", Json.arr (fails.map afailJson).toArray),
               ("feat", Json.mkObj [("top", Json.str (exprKind e)), ("nvalues", Json.num (match real with | some r => r.2.length | none => 0))])]
 
